@@ -164,6 +164,7 @@ pub fn run(o: &Opts) -> Report {
     }
     for (&code, g) in grammars.iter() {
         let mut known = Vec::new();
+        let mut n_sys = 0usize;
         all_tags(g, &mut known);
         known.sort();
         known.dedup();
@@ -237,6 +238,22 @@ pub fn run(o: &Opts) -> Report {
                 if rng.below(2) == 0 { c[i] = Chunk { tag: t, content }; } else { c.insert(i, Chunk { tag: t, content }); }
                 mutants.push(("foreign_option".into(), c, false));
             }
+            // systematic relocation: every field moved / copied to every other position (first messages of each type only)
+            if n_sys < (if o.thorough() { 6 } else { 2 }) && nchunks <= 24 {
+                n_sys += 1;
+                for i in 0..nchunks {
+                    for j in 0..=nchunks {
+                        if j == i || j == i + 1 { continue; }
+                        let mut c = msg.chunks.clone();
+                        let f = c.remove(i);
+                        c.insert(if j > i { j - 1 } else { j }, f);
+                        mutants.push((format!("move:{}", msg.chunks[i].tag), c, false));
+                        let mut c = msg.chunks.clone();
+                        c.insert(j, msg.chunks[i].clone());
+                        mutants.push((format!("copy:{}", msg.chunks[i].tag), c, false));
+                    }
+                }
+            }
             for (class, chunks, corrupt) in mutants {
                 let mtags: Vec<String> = chunks.iter().map(|c| c.tag.clone()).collect();
                 let outside = corrupt || !mgen::in_grammar(g, &mtags);
@@ -258,6 +275,20 @@ pub fn run(o: &Opts) -> Report {
                 let text = format!("{eol}{}{eol}", tok::render(&msg.chunks, eol, term));
                 let v = judge(&mut rep, code, g, &text, "outer_blank", false, false);
                 rep.tally(&format!("outer_blank:{v}"));
+            }
+            // text behind the block terminator / behind a lone dash line: "content after the last field of the type"
+            for tail in ["\nMORE TEXT", "\nMORE\nTEXT\n-", "}TRAILING"] {
+                let text = format!("{}{tail}", tok::render(&msg.chunks, eol, true));
+                match parse_body(code, &text) {
+                    Outcome::Accepted { .. } => {
+                        rep.fail(&format!("silent_drop|MT{code}|after_terminator"), json!({"type": code, "class": "after_terminator", "input_hex": hex(&text),
+                            "why": "text behind the block terminator was accepted and dropped"}));
+                        rep.tally("after_terminator:accepted-dropped");
+                    }
+                    Outcome::Panicked => rep.fail(&format!("panic|MT{code}|after_terminator"), json!({"type": code, "class": "after_terminator", "input_hex": hex(&text)})),
+                    Outcome::Rejected(_) => rep.tally("after_terminator:rejected"),
+                }
+                rep.case(&format!("{code} after_terminator {tail:?} {}", tags.join(",")), true);
             }
             if n % 20 == 0 {
                 if let Some(m) = overcap_message(code, g, &mut rng, &pool) {
@@ -289,7 +320,7 @@ pub fn run_c09(o: &Opts) -> Report {
         let text = crate::report::unhex(w["input_hex"].as_str().unwrap_or(""));
         let tag = w["tag"].as_str().unwrap_or("").to_string();
         let kind = w["kind"].as_str().unwrap_or("");
-        judge_c09(&mut rep, code, &text, &tag, kind == "delete", w["content"].as_str().filter(|s| !s.is_empty()).map(String::from).unwrap_or_else(invalid_content).as_str(), kind);
+        judge_c09(&mut rep, code, &text, &tag, kind.starts_with("delete"), w["content"].as_str().filter(|s| !s.is_empty()).map(String::from).unwrap_or_else(invalid_content).as_str(), kind);
         rep.case("replay", true);
         return rep;
     }
@@ -314,7 +345,9 @@ pub fn run_c09(o: &Opts) -> Report {
                     continue; // e.g. one of several repetitions
                 }
                 let t = tok::render(&c, "\n", true);
-                let kind = if msg.meta[i].seq_marker { "delete-marker" } else { "delete" };
+                // a deleted sequence marker: the first occurrence of the sequence or a later one (the errors differ)
+                let first = !msg.chunks[..i].iter().zip(msg.meta[..i].iter()).any(|(c, m)| m.seq_marker && c.tag == removed.tag);
+                let kind = if msg.meta[i].seq_marker { if first { "delete-marker" } else { "delete-marker-later" } } else { "delete" };
                 let v = judge_c09(&mut rep, code, &t, &removed.tag, true, "", kind);
                 rep.case(&format!("{code} del {} {}", removed.tag, i), true);
                 rep.tally(&format!("{kind}:{v}"));
@@ -331,6 +364,21 @@ pub fn run_c09(o: &Opts) -> Report {
                 let v = judge_c09(&mut rep, code, &t, &c[i].tag.clone(), false, &invalid_content(), "corrupt");
                 rep.case(&format!("{code} bad {} {}", c[i].tag, i), true);
                 rep.tally(&format!("corrupt:{v}"));
+                // a lone carriage return inside an otherwise valid content (CR is not a character of any SWIFT set but z)
+                let orig = &msg.chunks[i].content;
+                if orig.chars().count() >= 2 && msg.chunks[i].tag != "77T" {
+                    let cs: Vec<char> = orig.chars().collect();
+                    let p = 1 + rng.below(cs.len() - 1);
+                    if cs[p] != '\n' {
+                        let bad: String = cs[..p].iter().collect::<String>() + "\r" + &cs[p..].iter().collect::<String>();
+                        let mut c = msg.chunks.clone();
+                        c[i].content = bad.clone();
+                        let t = tok::render(&c, "\n", true);
+                        let v = judge_c09(&mut rep, code, &t, &c[i].tag.clone(), false, &bad, "corrupt-cr");
+                        rep.case(&format!("{code} cr {} {}", c[i].tag, i), true);
+                        rep.tally(&format!("corrupt-cr:{v}"));
+                    }
+                }
             }
         }
     }
